@@ -17,6 +17,9 @@ and with the property's own certificate, evaluated exactly by the driver):
           iteration count (observed through a tensor-subclass spy) <= maxiter.  Correspondence: on systems where
           floating-point and exact CG provably stay together (few iterations / tiny condition) iteration count
           and iterate equal the model's.
+  history ONE solver object (CG with default budget, PINV, LSTSQ, Cholesky) reused over systems of different sizes /
+          dtypes / layouts (small->large, large->small, mixed; a deterministic corner corpus is run by every seed):
+          all oracles after every call + the object's public attributes must stay what the constructor set.
   sparse  bsr_bsc_matmul and the _sparse_csr_mm dispatch on random and structured block patterns (block sizes
           1..4, densities 0..1, empty rows / columns / operands), integer data (exact equality) and float data;
           all 36 layout pairs against the model's dispatch table.
@@ -39,7 +42,8 @@ META = {
             "bad last pivot / bad first pivot / one bad batch item); cg: (layout, n in 1..40, spectrum kind, kappa<=1e3, "
             "scales of A and b over 2^-30..2^30, x0 kind, preconditioner kind and layout, tol, maxiter, b shape); sparse: "
             "(block grid 1..6, block dims 1..4, density ladder incl. 0 and 1, structured patterns, int / float data, "
-            "dtype) + all 36 layout pairs.  A case is non-trivial when the system has at least 2 unknowns (sparse: at "
+            "dtype) + all 36 layout pairs; history: (solver kind, constructor arguments, 2..5 calls, order asc / desc / mixed, "
+            "per-call size, dtype, layout, conditioning) on ONE reused solver object + a fixed corner corpus.  A case is non-trivial when the system has at least 2 unknowns (sparse: at "
             "least one stored block on each side) and distinct by its full discrete signature.",
     "trusted": [
         "torch.linalg.pinv / lstsq / cholesky_ex / cholesky_solve, torch.addmm and layout conversions (external kernels: "
@@ -94,6 +98,21 @@ def wl(t: torch.Tensor) -> str:
 
 def nums(rep):
     return [float(v) for v in common.reply_nums(rep)]
+
+
+def rep_case(case):
+    """the dict that is reported / replayed for `case`: the enclosing history when the call is one of a reused solver"""
+    if "_report" in case:
+        return {**case["_report"], "call": case["_call"]}
+    return {k: v for k, v in case.items() if not k.startswith("_")}
+
+
+def sfx(case):
+    return f" [call {case['_call']} on a REUSED solver object, history of {len(case['_report']['calls'])} calls]" if "_report" in case else ""
+
+
+def pub(case):
+    return {k: v for k, v in case.items() if not k.startswith("_")}
 
 
 # ============================================================================================ ls stream
@@ -194,22 +213,22 @@ def check_ls(ctx: Ctx, case, lines_out=None) -> bool:
     eps = EPS[dtype]
     A, b, items = ls_build(case)
     A0, b0 = A.clone(), b.clone()
-    sol = make_solver(name)
+    sol = case.get("_sol") or make_solver(name)
     default_cfg = name in ("PINV", "LSTSQ", "LSTSQ:gelsd", "LSTSQ:gelss", "PINV:herm")  # others: wrapper stream only
     try:
         x = sol(A, b)
     except Exception as e:
-        ctx.fail(case, f"raises: {name} raised on a finite system ({m}x{n}): {type(e).__name__}: {str(e)[:100]}")
+        ctx.fail(rep_case(case), f"raises: {name} raised on a finite system ({m}x{n}): {type(e).__name__}: {str(e)[:100]}" + sfx(case))
         return False
     ok = True
     if not (torch.equal(A, A0) and torch.equal(b, b0)):
-        ctx.fail(case, f"mutation: {name} changed its arguments")
+        ctx.fail(rep_case(case), f"mutation: {name} changed its arguments" + sfx(case))
         ok = False
     if tuple(x.shape) != tuple(case["batch"]) + (n, 1) or x.dtype != A.dtype:
-        ctx.fail(case, f"shape: {name} returned shape {tuple(x.shape)} dtype {x.dtype} for A {tuple(A.shape)}")
+        ctx.fail(rep_case(case), f"shape: {name} returned shape {tuple(x.shape)} dtype {x.dtype} for A {tuple(A.shape)}" + sfx(case))
         return False
     if not bool(torch.isfinite(x).all()):
-        ctx.fail(case, f"nonfinite: {name} returned a non-finite solution silently")
+        ctx.fail(rep_case(case), f"nonfinite: {name} returned a non-finite solution silently" + sfx(case))
         return False
     # wrapper correspondence with the kernel
     K = kernel_ls(name, sol, A, b)
@@ -238,7 +257,7 @@ def check_ls(ctx: Ctx, case, lines_out=None) -> bool:
                 d = float((xf[k] - Kf[k]).abs().max()) if n > 0 else 0.0
                 sc = float(Kf[k].abs().max()) if n > 0 else 0.0
                 if d > 64 * eps * (sc + 1e-300):
-                    ctx.disagree("ls.wrapper", case, f"item {k}: {name} differs from lstsq(A,b,rcond,driver).solution by {d:.3e}")
+                    ctx.disagree("ls.wrapper", rep_case(case), f"item {k}: {name} differs from lstsq(A,b,rcond,driver).solution by {d:.3e}")
                     ok = False
     case["_recs"] = recs
     return ok
@@ -274,7 +293,7 @@ def judge_ls(ctx: Ctx, case, rec, what, rep):
     s1, sr, r = rec["s1"], rec["sr"], rec["r"]
     kap = (s1 / sr) if (r > 0 and sr > 0) else 1.0
     pinv = name.startswith("PINV")
-    cc = {k: v for k, v in case.items() if not k.startswith("_")}
+    cc = rep_case(case)
     cc["item"] = rec["k"]
     if what == "cert":
         g, res, xn, bn, an = nums(rep)
@@ -287,7 +306,7 @@ def judge_ls(ctx: Ctx, case, rec, what, rep):
         stat("ls.cert." + ("pinv" if pinv else "lstsq") + "." + dtype, g / (tol + 1e-300))
         if g > tol + 1e-300:
             ctx.fail(cc, f"ls-certificate: {name} result is not a least-squares solution: |A^T(Ax-b)| = {g:.3e} > {tol:.3e} "
-                         f"({m}x{n}, rank {r}, cond {kap:.1e}, {dtype})")
+                         f"({m}x{n}, rank {r}, cond {kap:.1e}, {dtype})" + sfx(case))
     elif what == "ref":
         st, toks = common.parse_reply(rep)
         if st != "ok":
@@ -307,7 +326,7 @@ def judge_ls(ctx: Ctx, case, rec, what, rep):
             if d > tol + 1e-300:
                 if binding:
                     ctx.fail(cc, f"ls-minnorm: {name} differs from the exact minimum-norm least-squares solution by {d:.3e} > {tol:.3e} "
-                                 f"({m}x{n}, rank {r}, cond {kap:.1e}, |x_ref| = {xrn:.3e}, {dtype})")
+                                 f"({m}x{n}, rank {r}, cond {kap:.1e}, |x_ref| = {xrn:.3e}, {dtype})" + sfx(case))
                     ctx.disagree("ls.ref", cc, f"|x - x_model| = {d:.3e} > {tol:.3e}")
     elif what == "matvec":
         xm = torch.tensor(nums(rep), dtype=torch.float64)
@@ -417,21 +436,22 @@ def run_chol_cases(ctx: Ctx, cases):
         ctx.note_case(sig, n >= 2)
         for r, it in zip(regions, case["items"]):
             ctx.count(f"chol.{it['kind']}.{r}")
-        ctx.sample({"stream": "chol", **{k: v for k, v in case.items() if k != "items"}, "regions": regions}, cap=12)
+        ctx.sample({"stream": "chol", **{k: v for k, v in pub(case).items() if k != "items"}, "regions": regions}, cap=12)
         A0, b0 = A.clone(), b.clone()
-        sol = S().Cholesky(upper=case["upper"])
+        sol = case.get("_sol") or S().Cholesky(upper=case["upper"])
         raised = None
         try:
             x = sol(A, b)
         except Exception as e:
             raised = e
-        cc = dict(case)
+        cc = rep_case(case)
+        hs = sfx(case)
         if not (torch.equal(A, A0) and torch.equal(b, b0)):
-            ctx.fail(cc, "mutation: Cholesky changed its arguments")
+            ctx.fail(cc, "mutation: Cholesky changed its arguments" + hs)
         if raised is not None:
             if must_return:
                 ctx.fail(cc, f"chol-raises: Cholesky raised on a symmetric positive-definite system (n={n}, {dtype}, "
-                             f"upper={case['upper']}): {type(raised).__name__}: {str(raised)[:80]}")
+                             f"upper={case['upper']}): {type(raised).__name__}: {str(raised)[:80]}" + hs)
                 ctx.disagree("chol.decision", cc, "implementation raised, model factorises with margin")
             continue
         if must_raise:
@@ -443,7 +463,7 @@ def run_chol_cases(ctx: Ctx, cases):
             resid = float((Ak @ xk - bk).norm() / (bk.norm() + 1e-300))
             ctx.fail(cc, f"chol-silent: Cholesky returned a vector for a matrix that is not positive definite "
                          f"(item {k} of {len(regions)}, kind {case['items'][k]['kind']}, model info={model[(ci, k)][3]}, "
-                         f"relative residual of the returned vector {resid:.3e}, n={n}, {dtype}, upper={case['upper']})")
+                         f"relative residual of the returned vector {resid:.3e}, n={n}, {dtype}, upper={case['upper']})" + hs)
             ctx.disagree("chol.decision", cc, "implementation returned, model reports a non-positive pivot with margin")
             continue
         if tuple(x.shape) != tuple(b.shape) or x.dtype != b.dtype:
@@ -463,7 +483,7 @@ def run_chol_cases(ctx: Ctx, cases):
                 ctx.fail({**cc, "item": k}, f"chol-silent: Cholesky returned a non-finite vector without raising (n={n}, {dtype})")
                 continue
             cert_lines.append(f"c10.lscert {n} {n} {wl(Af[k])} {wl(bf[k][:, 0])} {wl(xf[k][:, 0])}")
-            cert_meta.append((cc, k, Af[k], xf[k][:, 0], xm, dtype))
+            cert_meta.append(({**cc, "n": n, "upper": case["upper"]}, k, Af[k], xf[k][:, 0], xm, dtype))
             if regions[k] != "pd":
                 continue
             # further right-hand sides: float64 residual is accurate enough relative to the tolerance scale
@@ -610,9 +630,12 @@ def cg_build(case):
     return A, b, x0, M
 
 
+def make_cg(tol, maxiter):
+    return S().CG(**({} if tol is None else {"tol": tol}), **({} if maxiter is None else {"maxiter": maxiter}))
+
+
 def cg_call(case, A, b, x0, M, spy=False):
-    sol = S().CG(**({} if case["tol"] is None else {"tol": case["tol"]}),
-                 **({} if case["maxiter"] is None else {"maxiter": case["maxiter"]}))
+    sol = case.get("_sol") or make_cg(case["tol"], case["maxiter"])
     Al = to_layout(A, case["layout"])
     Ml = None if M is None else to_layout(M, case["Mlayout"])
     bb = b[:, 0].clone() if case["bshape"] == "vec" else b.clone()
@@ -644,35 +667,36 @@ def check_cg(ctx: Ctx, case):
     n, dtype = case["n"], case["dtype"]
     eps = EPS[dtype]
     A, b, x0, M = cg_build(case)
-    cc = dict(case)
+    cc = rep_case(case)
+    hs = sfx(case)
     try:
         x, K, (Al, bb, Ml) = cg_call(case, A, b, x0, M, spy=True)
     except Exception as e:
         ctx.fail(cc, f"cg-raises: CG raised on an SPD system (n={n}, layout {case['layout']}, x0 {case['x0']}, M {case['M']}/"
-                     f"{case['Mlayout']}, b shape {case['bshape']}): {type(e).__name__}: {str(e)[:100]}")
+                     f"{case['Mlayout']}, b shape {case['bshape']}): {type(e).__name__}: {str(e)[:100]}" + hs)
         return None, None
     # arguments other than the initial guess must be untouched
     if not torch.equal(Al.to_dense() if Al.layout != torch.strided else Al, A) or not torch.equal(bb.reshape(n, 1), b):
-        ctx.fail(cc, "mutation: CG changed A or b")
+        ctx.fail(cc, "mutation: CG changed A or b" + hs)
     if M is not None and not torch.equal(Ml.to_dense() if Ml.layout != torch.strided else Ml, M):
-        ctx.fail(cc, "mutation: CG changed the preconditioner")
+        ctx.fail(cc, "mutation: CG changed the preconditioner" + hs)
     if x.layout != torch.strided:
         x = x.to_dense()
     if tuple(x.shape) != (n, 1) or x.dtype != b.dtype:
-        ctx.fail(cc, f"shape: CG returned shape {tuple(x.shape)} dtype {x.dtype} for n={n}")
+        ctx.fail(cc, f"shape: CG returned shape {tuple(x.shape)} dtype {x.dtype} for n={n}" + hs)
         return None, K
     xd, Ad, bd = x.double(), A.double(), b.double()
     if case["b"] == "zero":
         if float(xd.abs().max()) != 0.0:
-            ctx.fail(cc, f"cg-zero: CG does not return zero for b = 0 (max |x| = {float(xd.abs().max()):.3e}, x0 {case['x0']})")
+            ctx.fail(cc, f"cg-zero: CG does not return zero for b = 0 (max |x| = {float(xd.abs().max()):.3e}, x0 {case['x0']})" + hs)
         return xd[:, 0], K
     if not bool(torch.isfinite(xd).all()):
-        ctx.fail(cc, f"cg-residual: CG returned a non-finite vector (n={n}, cond 1e{case['cexp']}, x0 {case['x0']}, M {case['M']})")
+        ctx.fail(cc, f"cg-residual: CG returned a non-finite vector (n={n}, cond 1e{case['cexp']}, x0 {case['x0']}, M {case['M']})" + hs)
         return None, K
     tol = cg_tol(case)
     mi = cg_maxiter(case)
     if K is not None and K > mi:
-        ctx.fail(cc, f"cg-maxiter: CG ran {K} passes, more than maxiter = {mi}")
+        ctx.fail(cc, f"cg-maxiter: CG ran {K} passes, more than maxiter = {mi}" + hs)
     bn = float(bd.norm())
     res = float((bd - Ad @ xd).norm())
     sA = float(torch.linalg.matrix_norm(Ad, 2))
@@ -685,7 +709,7 @@ def check_cg(ctx: Ctx, case):
         if res > tol * bn * (1 + 1e-6) + slack:
             ctx.fail(cc, f"cg-residual: |b - A x| = {res:.3e} > tol*|b| = {tol * bn:.3e} (+{slack:.1e}) "
                          f"(n={n}, layout {case['layout']}, cond 1e{case['cexp']} {case['spec']}, x0 {case['x0']}, M {case['M']}/{case['Mlayout']}, "
-                         f"tol {tol}, passes {K}, |b| = {bn:.2e}, {dtype})")
+                         f"tol {tol}, passes {K}, |b| = {bn:.2e}, {dtype})" + hs)
     return xd[:, 0], K
 
 
@@ -716,7 +740,7 @@ def judge_cg_model(ctx: Ctx, case, x, K, rep_cg, rep_traj):
         raise common.InfraError(f"model cg failed: {rep_cg}")
     Km, stopped = int(toks[0]), toks[1] == "1"
     xm = torch.tensor([float(common.from_wire(t)) for t in toks[2:2 + n]], dtype=torch.float64)
-    cc = dict(case)
+    cc = rep_case(case)
     if case["b"] == "zero":
         if not (stopped and Km == 0 and float(xm.abs().max()) == 0.0):
             raise common.InfraError("model cg: b = 0 does not give zero")
@@ -990,6 +1014,156 @@ def check_dispatch(ctx: Ctx, case, route=None):
     return True
 
 
+
+# ============================================================================================ history stream
+
+SOLVER_ATTRS = {"CG": ("maxiter", "tol"), "PINV": ("atol", "rtol", "hermitian"), "LSTSQ": ("rcond", "driver"),
+                "Cholesky": ("upper",)}
+
+
+def cg_call_case(n, seed, **kw):
+    c = {"kind": "cg", "n": n, "dtype": "float64", "layout": "dense", "spec": "log", "cexp": 3 if n >= 10 else 0,
+         "ascale": 0, "bscale": 0, "b": "generic", "x0": "none", "M": "none", "Mlayout": "dense", "tol": None,
+         "maxiter": None, "bshape": "col", "seed": seed}
+    c.update(kw)
+    return c
+
+
+def corner_histories():
+    """deterministic corpus, identical for every seed: ONE solver object over systems of different sizes.
+    (A solver whose default iteration budget, tolerance or factorisation state leaks from one call into the next
+    passes every single-call test; small -> large exposes a stale `10 n` budget, large -> small a stale size.)"""
+    H = []
+    H.append({"kind": "history", "solver": "CG", "tol": None, "maxiter": None, "tag": "corner:small->large",
+              "calls": [cg_call_case(2, 11), cg_call_case(40, 12)]})
+    H.append({"kind": "history", "solver": "CG", "tol": None, "maxiter": None, "tag": "corner:3->8->30 csr",
+              "calls": [cg_call_case(3, 21, layout="csr"), cg_call_case(8, 22, layout="csr", cexp=1),
+                        cg_call_case(30, 23, layout="csr", spec="uniform")]})
+    H.append({"kind": "history", "solver": "CG", "tol": None, "maxiter": None, "tag": "corner:large->small->large",
+              "calls": [cg_call_case(36, 31, spec="lap"), cg_call_case(1, 32), cg_call_case(24, 33, x0="random", M="jacobi")]})
+    H.append({"kind": "history", "solver": "CG", "tol": 1e-3, "maxiter": None, "tag": "corner:dtype switch",
+              "calls": [cg_call_case(4, 41, dtype="float32", tol=1e-3), cg_call_case(20, 42, tol=1e-3, cexp=2),
+                        cg_call_case(6, 43, tol=1e-3, b="zero")]})
+    def ls(m, n, seed, **kw):
+        it = {"kind": "float", "cexp": 2, "ascale": 0, "b": "generic", "bscale": 0, "seed": seed}
+        it.update(kw)
+        return {"kind": "ls", "dtype": "float64", "batch": [], "m": m, "n": n, "items": [it]}
+    for name in ("PINV", "LSTSQ"):
+        H.append({"kind": "history", "solver": name, "tag": "corner:shapes",
+                  "calls": [ls(3, 2, 51), ls(30, 20, 52, cexp=6), ls(2, 5, 53), {**ls(4, 4, 54), "dtype": "float32"},
+                            ls(6, 9, 55, kind="int", r=3, cexp2=4)]})
+    def ch(n, seed, kind="spd", **kw):
+        it = {"kind": kind, "seed": seed, "nrhs": 1, "cexp": 2, "dscale": 0}
+        it.update(kw)
+        return {"kind": "chol", "dtype": "float64", "batch": [], "n": n, "items": [it]}
+    for upper in (False, True):
+        H.append({"kind": "history", "solver": "Cholesky", "upper": upper, "tag": "corner:good-bad-good",
+                  "calls": [ch(2, 61), ch(30, 62, cexp=6), ch(5, 63, kind="indef", j=1, nexp=1), ch(4, 64),
+                            {**ch(3, 65), "dtype": "float32"}, ch(6, 66, kind="badlast", by=1), ch(12, 67, kind="intspd")]})
+    return H
+
+
+def gen_history_cases(ctx: Ctx, count):
+    rng = ctx.rng
+    H = []
+    for i in range(count):
+        c = rng.random()
+        L = rng.randint(2, 5)
+        order = rng.choice(["asc", "asc", "desc", "mixed"])
+        sizes = [pick_dim(rng, 40) for _ in range(L)]
+        if order == "asc":
+            sizes = sorted(sizes)
+            if rng.random() < 0.6:
+                sizes[0] = rng.randint(1, 4); sizes[-1] = rng.randint(16, 40)
+        elif order == "desc":
+            sizes = sorted(sizes, reverse=True)
+        if c < 0.6:
+            tol = rng.choice([None, None, None, 1e-3, 1e-8])
+            maxiter = rng.choice([None, None, None, None, 500])
+            calls = []
+            for n in sizes:
+                layouts = ["dense", "dense", "csr", "coo"] + [f"bsr:{k}" for k in (1, 2, 3, 4) if n % k == 0]
+                calls.append(cg_call_case(
+                    n, rng.randrange(1 << 30), layout=rng.choice(layouts),
+                    spec=rng.choice(["log", "cluster", "outlier", "uniform", "lap"]),
+                    cexp=rng.choice([0, 1, 2, 3, 3]) if n >= 10 else rng.choice([0, 1]),
+                    ascale=rng.choice([0, 0, -30, 30]), bscale=rng.choice([0, 0, -30, 30]),
+                    b=rng.choice(["generic"] * 5 + ["zero"]), x0=rng.choice(["none", "none", "zeros", "random", "partial"]),
+                    M=rng.choice(["none", "none", "jacobi", "scaled"]), Mlayout=rng.choice(["dense", "csr"]),
+                    tol=tol, maxiter=maxiter))
+            H.append({"kind": "history", "solver": "CG", "tol": tol, "maxiter": maxiter, "tag": order, "calls": calls})
+        elif c < 0.8:
+            name = rng.choice(["PINV", "LSTSQ", "LSTSQ:gelsd"])
+            calls = []
+            for m in sizes:
+                sub = gen_ls_cases(ctx, 1)[0]
+                sub.pop("malformed", None)
+                sub["solver"] = name
+                sub["m"] = m
+                for it in sub["items"]:
+                    if it["kind"] == "int":
+                        it["r"] = min(it["r"], m, sub["n"])
+                    it.pop("sym", None)
+                calls.append({k: v for k, v in sub.items() if k != "solver"})
+            H.append({"kind": "history", "solver": name, "tag": order, "calls": calls})
+        else:
+            upper = rng.random() < 0.5
+            calls = []
+            for n in sizes:
+                sub = gen_chol_cases(ctx, 1)[0]
+                sub["n"] = n
+                calls.append({k: v for k, v in sub.items() if k != "upper"})
+            H.append({"kind": "history", "solver": "Cholesky", "upper": upper, "tag": order, "calls": calls})
+    return H
+
+
+def history_solver(h):
+    name = h["solver"]
+    if name == "CG":
+        return make_cg(h.get("tol"), h.get("maxiter"))
+    if name == "Cholesky":
+        return S().Cholesky(upper=h["upper"])
+    return make_solver(name)
+
+
+def run_history(ctx: Ctx, hists):
+    """every history: ONE solver object, the calls in order; after every call the stream's own oracles and model
+    correspondence (the model of call k is a fresh model call: theorem cg_history_stateless) and the solver's public
+    attributes must be what the constructor set."""
+    for h in hists:
+        hp = {k: v for k, v in h.items() if k != "call"}
+        name = h["solver"]
+        base = name.split(":")[0]
+        sol = history_solver(h)
+        attrs = SOLVER_ATTRS[base]
+        before = {a: getattr(sol, a, None) for a in attrs}
+        ctx.note_case(("history", name, h.get("tag"), tuple((c.get("n"), c.get("m"), c.get("dtype")) for c in h["calls"])), len(h["calls"]) >= 2)
+        ctx.count(f"history.{base}")
+        sizes = [c["n"] if base in ("CG", "Cholesky") else c["m"] for c in h["calls"]]
+        ctx.count("history.order." + ("asc" if sizes == sorted(sizes) else "desc" if sizes == sorted(sizes, reverse=True) else "mixed"))
+        ctx.sample({"stream": "history", "solver": name, "tag": h.get("tag"), "sizes": sizes}, cap=20)
+        for k, c in enumerate(h["calls"]):
+            c = dict(c)
+            c["_sol"], c["_report"], c["_call"] = sol, hp, k
+            if base == "CG":
+                c["tol"], c["maxiter"] = h.get("tol"), h.get("maxiter")
+                run_cg(ctx, [c])
+            elif base == "Cholesky":
+                c["upper"] = h["upper"]
+                run_chol_cases(ctx, [c])
+            else:
+                c["solver"] = name
+                run_ls(ctx, [c])
+            after = {a: getattr(sol, a, None) for a in attrs}
+            changed = [a for a in attrs if not (after[a] is before[a] or after[a] == before[a])]
+            if changed:
+                a = changed[0]
+                ctx.fail({**hp, "call": k}, f"history-state: {base}.forward changed the solver object's attribute `{a}` from "
+                                            f"{before[a]!r} to {after[a]!r} (call {k} of {len(h['calls'])}, sizes {sizes}): later calls "
+                                            f"on the same object no longer behave like a fresh solver")
+                before = after
+
+
 # ============================================================================================ generation
 
 def pick_dim(rng, hi=40):
@@ -1166,7 +1340,7 @@ def run_cg(ctx: Ctx, cases):
         ctx.count(f"cg.cond.1e{case['cexp']}")
         if K is not None:
             ctx.count("cg.passes." + ("0" if K == 0 else "<=n" if K <= case["n"] else "<=2n" if K <= 2 * case["n"] else ">2n"))
-        ctx.sample({"stream": "cg", **case, "passes": K}, cap=14)
+        ctx.sample({"stream": "cg", **pub(case), "passes": K}, cap=14)
         if x is not None and cg_eligible(case):
             a, b = cg_model_lines(case)
             lines += [a, b]
@@ -1311,6 +1485,7 @@ def run(ctx: Ctx):
     run_chol_cases(ctx, gen_chol_cases(ctx, ctx.pick(400, 7000)))
     run_ls(ctx, gen_ls_cases(ctx, ctx.pick(400, 7000)))
     run_cg(ctx, gen_cg_cases(ctx, ctx.pick(500, 9000)))
+    run_history(ctx, corner_histories() + gen_history_cases(ctx, ctx.pick(60, 1200)))
     ctx.notes.append("largest observed error/tolerance per oracle: " +
                      ", ".join(f"{k}={v:.3g}" for k, v in sorted(STATS.items())))
 
@@ -1336,6 +1511,8 @@ def search(ctx: Ctx):
             run_cg(ctx, gen_cg_cases(ctx, 300))
         if "ls" in broken and len(ctx.failures) == n0:
             run_ls(ctx, gen_ls_cases(ctx, 200))
+        if len(ctx.failures) == n0:
+            run_history(ctx, gen_history_cases(ctx, 60))
         if len(ctx.failures) > n0:
             return
 
@@ -1353,6 +1530,9 @@ def replay(ctx: Ctx, case) -> bool:
     elif kind == "sparse":
         if sparse_canary(ctx, [c]):
             run_sparse(ctx, [c])
+    elif kind == "history":
+        c.pop("call", None)
+        run_history(ctx, [c])
     elif kind == "import":
         try:
             O()
